@@ -102,10 +102,20 @@ def crash_class(text):
         m = re.search(pat, text)
         if m:
             s = re.sub(r"0x[0-9a-f]+|\d+", "N", m.group(0))
-            fn = ""
+            # the most frequent go-imap function of the trace (for a stack overflow: the recursion body;
+            # the innermost frame varies from run to run)
+            counts = {}
             for fm in re.finditer(r"^(github\.com/emersion/go-imap/v2/[^\s(]+(?:\([^)]*\))?[^\s(]*)\(", text, re.M):
-                fn = fm.group(1).split("/")[-1]
-                break
+                f = fm.group(1).split("/")[-1]
+                counts[f] = counts.get(f, 0) + 1
+            fn = ""
+            if counts:
+                best = max(counts.values())
+                fn = sorted(f for f, c in counts.items() if c == best)[0]
+                if "stack overflow" not in s:
+                    for fm in re.finditer(r"^(github\.com/emersion/go-imap/v2/[^\s(]+(?:\([^)]*\))?[^\s(]*)\(", text, re.M):
+                        fn = fm.group(1).split("/")[-1]
+                        break
             return s + (" in " + fn if fn else "")
     return "unknown crash"
 
